@@ -76,14 +76,12 @@ class Dep5GlobStream(Stream):
         toml_from_dep5, the resulting REUSE.toml is read back, and its (only) path is the answer -- so every step between the dep5
         pattern and the REUSE.toml pattern takes part, not only the asterisk rewriting."""
         from debian.copyright import Copyright
-        from reuse.convert_dep5 import toml_from_dep5, _paths_from_paragraph
+        from reuse.convert_dep5 import toml_from_dep5, _convert_asterisk
         from reuse.global_licensing import ReuseTOML, AnnotationsItem
 
         if d == "":
-            # the empty pattern cannot be written into a Files field: the paragraph-level function on a stand-in paragraph
-            import types
-            conv = _paths_from_paragraph(types.SimpleNamespace(files=(d,)))
-            return AnnotationsItem(paths=[conv] if isinstance(conv, str) else list(conv))
+            # the empty pattern cannot be written into a Files field (no dep5 file holds it): the asterisk rewriting alone
+            return AnnotationsItem(paths=[_convert_asterisk(d)])
         doc = Copyright(DEP5_HEAD + "\nFiles: %s\nCopyright: 2020 Jane Doe\nLicense: MIT\n" % d)
         paras = list(doc.all_files_paragraphs())
         if len(paras) != 1 or tuple(paras[0].files) != (d,):
